@@ -3,8 +3,9 @@
 after verify_mutant.sh confirmed it (suite unchanged, demo fails with / passes without)."""
 import json, os, shutil, subprocess, sys
 prop, k, needs = sys.argv[1], sys.argv[2], sys.argv[3]
+kd = sys.argv[4] if len(sys.argv) > 4 else k          # (later batches are stored under the next free numbers)
 src = "/tmp/wt/out-%s/m%s" % (prop, k)
-dst = "/verif/seeded/%s-m%s" % (prop, k)
+dst = "/verif/seeded/%s-m%s" % (prop, kd)
 os.makedirs(dst, exist_ok=True)
 for f in ("patch.diff", "demo.py", "notes.md"):
     shutil.copy(os.path.join(src, f), os.path.join(dst, f))
@@ -15,7 +16,7 @@ meta = {
     "origin": "independent sub-agent given only the property text and a scratch worktree",
     "needs_to_manifest": needs,
     "confirmed": {
-        "cmd": "tools/verify_mutant.sh seeded/%s-m%s" % (prop, k),
+        "cmd": "tools/verify_mutant.sh seeded/%s-m%s" % (prop, kd),
         "result": out.split(": ", 1)[-1],
         "suite_unchanged": "1 failed, 310 passed" in out,
         "demo_fails_with_patch_passes_without": "clean_demo_rc=0" in out and "patched_demo_rc=0" not in out,
